@@ -1318,6 +1318,26 @@ val map_re_loop : str -> bool -> bool -> str
 
 val m_map_re : str -> str
 
+val is_scalar : n -> bool
+
+val cls_fn_first : (n * n) list
+
+val cls_fn_char : (n * n) list
+
+val int_rt : z -> bool
+
+val lx_lit : json -> bool
+
+val fname_okb : str -> bool
+
+val lx_sel : sel -> bool
+
+val lx_expr : expr -> bool
+
+val lx_seg : seg -> bool
+
+val lx_query : query -> bool
+
 val iota_json : z -> json list
 
 val enc_sel0 : (z * json) list -> z list
@@ -1353,6 +1373,8 @@ val op_linecol : z list -> z list
 val op_env_find : z list -> z list
 
 val op_str_query : z list -> z list
+
+val op_lx_query : z list -> z list
 
 val op_path : z list -> z list
 
